@@ -23,6 +23,7 @@
 import LispModel.Eval
 import LispModel.Proofs.EvalBasic
 import LispModel.Proofs.EvalLaws
+import LispModel.Proofs.EvalStoreWF
 namespace LispModel.Props.C01
 open LispModel LispModel.Core
 open LispModel.Proofs.EvalBasic (TraceSuffix)
@@ -526,5 +527,163 @@ example : (let r := run (L [S "+", L [S "trace!", I 1], L [S "nope"], L [S "trac
 example : (let r := run (L [L [S "fn", L [S "a"], L [S "trace!", I 9]], I 1, I 2]);
     isErr r && traceIs r []) = true := by
   decide +kernel
+
+/-! ### BEGIN D1 — store well-formedness is an invariant of evaluation; scoping laws without side condition on the store
+
+  `ValWF n v`: every closure inside the value `v` (through lists, vectors, maps, and the closure's own
+  parameter form and body) has a scope id `< n`.  `StateWF st`: the store has a root scope, every `outer`
+  link points to an OLDER scope, and every value stored in a scope, an atom or the trace is
+  `ValWF st.scopes.size`.  Proofs: `Proofs/EvalStoreWF.lean`. -/
+
+/-- the harness environment is well-formed -/
+theorem initState_StateWF : StateWF initState := Proofs.EvalStoreWF.initState_stateWF
+
+/-- a form without closure objects (`ValWF 0`: everything the reader produces) is well-formed in every store -/
+theorem program_text_is_wellformed {v : Val} (h : ValWF 0 v) (n : Nat) : ValWF n v :=
+  Proofs.EvalStoreWF.valWF_of_closureFree h n
+
+/-- store well-formedness is preserved by `EVAL` — from ANY well-formed store, scope and form, with or
+    without debugger, cancelled or not, whatever macros are bound —, the store only grows, and the value
+    (or the payload of the error) only mentions existing scopes -/
+theorem stateWF_preserved_by_eval (hw : StateWF st) (he : env < st.scopes.size) {ast : Val}
+    (ha : ValWF st.scopes.size ast) {r : Res Val} {s : State} (h : eval F st env ast d = (r, s)) :
+    StateWF s ∧ st.scopes.size ≤ s.scopes.size ∧ ResWF s.scopes.size r :=
+  (Proofs.EvalStoreWF.inv F).eval hw he ha h
+
+/-- … by the loop of one activation … -/
+theorem stateWF_preserved_by_evalLoop (hw : StateWF st) (he : env < st.scopes.size) {ast : Val}
+    (ha : ValWF st.scopes.size ast) {r : Res Val} {s : State} (h : evalLoop F st env ast d = (r, s)) :
+    StateWF s ∧ st.scopes.size ≤ s.scopes.size ∧ ResWF s.scopes.size r :=
+  (Proofs.EvalStoreWF.inv F).evalLoop hw he ha h
+
+/-- … by argument evaluation … -/
+theorem stateWF_preserved_by_evalList (hw : StateWF st) (he : env < st.scopes.size) {xs : List Val}
+    (ha : ValsWF st.scopes.size xs) {r : Res (List Val)} {s : State} (h : evalList F st env xs d = (r, s)) :
+    StateWF s ∧ st.scopes.size ≤ s.scopes.size ∧ ResLWF s.scopes.size r :=
+  (Proofs.EvalStoreWF.inv F).evalList hw he ha h
+
+/-- … and by `Apply` (callbacks from builtins) -/
+theorem stateWF_preserved_by_apply (hw : StateWF st) {f : Val} {args : List Val}
+    (hf : ValWF st.scopes.size f) (ha : ValsWF st.scopes.size args) {r : Res Val} {s : State}
+    (h : apply F st f args d = (r, s)) :
+    StateWF s ∧ st.scopes.size ≤ s.scopes.size ∧ ResWF s.scopes.size r :=
+  (Proofs.EvalStoreWF.inv F).apply hw hf ha h
+
+/-- the same for all 13 functions of the evaluator block at once (`Inv`: one field per function) -/
+theorem stateWF_invariant_of_evaluator_block (F : Nat) : Proofs.EvalStoreWF.Inv F := Proofs.EvalStoreWF.inv F
+
+/-- the invariant contains the side condition `ScopesWF` of `eval_symbol_outer` / `lookup_in_call_scope` -/
+theorem stateWF_gives_scopesWF (hw : StateWF st) : ScopesWF st := Proofs.EvalStoreWF.stateWF_scopesWF hw
+
+/-- the states the laws above talk about stay well-formed: after the poll, … -/
+theorem stateWF_tick (hw : StateWF st) : StateWF (tick st) := Proofs.EvalStoreWF.stateWF_tick hw
+
+/-- … after a `def` / `let` binding of a well-formed value, … -/
+theorem stateWF_set (hw : StateWF st) (k : String) {v : Val} (hv : ValWF st.scopes.size v) :
+    StateWF (st.set env k v) := Proofs.EvalStoreWF.stateWF_set hw env k hv
+
+/-- … and in the new scope of a call of a well-formed closure (where its body is well-formed, too) -/
+theorem stateWF_call_scope (hw : StateWF st) {ps b : Val} {e : Nat} {m : Bool} {fp : Option Pos} {args : List Val}
+    {data : List (String × Val)} (hf : ValWF st.scopes.size (.fn ps b e m fp))
+    (ha : ValsWF st.scopes.size args) (hb : bindParams ps args = .ok data) :
+    StateWF (st.newScope e data).1 ∧ (st.newScope e data).2 < (st.newScope e data).1.scopes.size ∧
+    ValWF (st.newScope e data).1.scopes.size b ∧ st.scopes.size ≤ (st.newScope e data).1.scopes.size :=
+  Proofs.EvalStoreWF.call_scope_wf hw hf ha hb
+
+/-- `eval_symbol_outer` under the invariant: the lookup climbs the chain -/
+theorem eval_symbol_outer_of_stateWF (hc : st.cancelAt = none) (hw : StateWF st) {sc : Scope} {k : String}
+    {o : Nat} (p : Option Pos) (hsc : st.scopes[env]? = some sc) (hk : alookup k sc.data = none)
+    (ho : sc.outer = some o) :
+    evalLoop (F+2) st env (.sym k p) d = evalLoop (F+2) st o (.sym k p) d :=
+  Proofs.EvalStoreWF.eval_symbol_outer_wf hc hw p hsc hk ho
+
+/-- … hence in every state `st` in which a run that STARTED in a well-formed store ends … -/
+theorem eval_symbol_outer_after_run {F0 : Nat} {st0 : State} {env0 d0 : Nat} {ast0 : Val} {r0 : Res Val}
+    (h0 : StateWF st0) (he0 : env0 < st0.scopes.size) (ha0 : ValWF st0.scopes.size ast0)
+    (hrun : eval F0 st0 env0 ast0 d0 = (r0, st)) (hc : st.cancelAt = none)
+    {sc : Scope} {k : String} {o : Nat} (p : Option Pos)
+    (hsc : st.scopes[env]? = some sc) (hk : alookup k sc.data = none) (ho : sc.outer = some o) :
+    evalLoop (F+2) st env (.sym k p) d = evalLoop (F+2) st o (.sym k p) d :=
+  Proofs.EvalStoreWF.eval_symbol_outer_after_run h0 he0 ha0 hrun hc p hsc hk ho
+
+/-- … in particular after any program (closure-free text) run on the harness environment: unconditional -/
+theorem eval_symbol_outer_unconditional {F0 d0 : Nat} {prog : Val} {r0 : Res Val}
+    (hprog : ValWF 0 prog) (hrun : eval F0 initState 0 prog d0 = (r0, st))
+    {sc : Scope} {k : String} {o : Nat} (p : Option Pos)
+    (hsc : st.scopes[env]? = some sc) (hk : alookup k sc.data = none) (ho : sc.outer = some o) :
+    evalLoop (F+2) st env (.sym k p) d = evalLoop (F+2) st o (.sym k p) d :=
+  Proofs.EvalStoreWF.eval_symbol_outer_from_init hprog hrun p hsc hk ho
+
+/-- `lookup_in_call_scope` under the invariant: in the scope of a call of ANY closure value of a
+    well-formed store the parameters win, every other symbol means what it means in the closure's
+    defining scope `e` -/
+theorem lookup_in_call_scope_of_stateWF (hw : StateWF st) {ps b : Val} {e : Nat} {m : Bool} {fp : Option Pos}
+    (hf : ValWF st.scopes.size (.fn ps b e m fp)) (data : List (String × Val)) (k : String) :
+    (st.newScope e data).1.get (st.newScope e data).2 k =
+      match alookup k data with
+      | some v => some v
+      | none => st.get e k :=
+  Proofs.EvalStoreWF.get_call_scope hw hf data k
+
+/-- a closure sees its DEFINING scope: when the head of a call evaluates to a closure — created anywhere,
+    any time before, in scope `fenv` — the body runs (tail position) in a fresh scope in which the
+    parameters win and every other symbol is resolved through `fenv`'s chain, not through the caller's
+    scope `env`; the invariant holds again where the body starts (so this applies to the calls inside) -/
+theorem closure_sees_defining_scope (hw : StateWF st) (he : env < st.scopes.size)
+    {f : Val} {args : List Val} (hast : ValsWF st.scopes.size (f :: args))
+    (hc : st.cancelAt = none) (hs : st.stepper = none)
+    (hm : HeadNotMacro st env f) (hsf : a0sym f ∉ specialForms)
+    {params body : Val} {fenv : Nat} {m : Bool} {fp : Option Pos} {vs : List Val} {st1 : State}
+    {data : List (String × Val)}
+    (hargs : evalList (F+1) (tick st) env (f :: args) d = (.ok (.fn params body fenv m fp :: vs), st1))
+    (hbind : bindParams params vs = .ok data) :
+    evalLoop (F+2) st env (.list (f :: args) pos) d =
+        evalLoop (F+1) (st1.newScope fenv data).1 (st1.newScope fenv data).2 body d ∧
+    (∀ k, (st1.newScope fenv data).1.get (st1.newScope fenv data).2 k =
+        match alookup k data with
+        | some v => some v
+        | none => st1.get fenv k) ∧
+    StateWF (st1.newScope fenv data).1 ∧
+    (st1.newScope fenv data).2 < (st1.newScope fenv data).1.scopes.size ∧
+    ValWF (st1.newScope fenv data).1.scopes.size body :=
+  Proofs.EvalStoreWF.closure_sees_defining_scope hw he hast hc hs hm hsf hargs hbind
+
+/-- unconditional: after any program run on the harness environment, every closure bound to a name
+    anywhere in the store sees its defining scope when called … -/
+theorem bound_closure_sees_defining_scope {F0 d0 : Nat} {prog : Val} {r0 : Res Val}
+    (hprog : ValWF 0 prog) (hrun : eval F0 initState 0 prog d0 = (r0, st))
+    {name : String} {ps b : Val} {e : Nat} {m : Bool} {fp : Option Pos}
+    (hg : st.get env name = some (.fn ps b e m fp)) (data : List (String × Val)) (k : String) :
+    (st.newScope e data).1.get (st.newScope e data).2 k =
+      match alookup k data with
+      | some v => some v
+      | none => st.get e k :=
+  Proofs.EvalStoreWF.get_call_scope_from_init hprog hrun hg data k
+
+/-- … and so does a closure the program returns -/
+theorem returned_closure_sees_defining_scope {F0 d0 : Nat} {prog : Val} {ps b : Val} {e : Nat} {m : Bool}
+    {fp : Option Pos} (hprog : ValWF 0 prog) (hrun : eval F0 initState 0 prog d0 = (.ok (.fn ps b e m fp), st))
+    (data : List (String × Val)) (k : String) :
+    (st.newScope e data).1.get (st.newScope e data).2 k =
+      match alookup k data with
+      | some v => some v
+      | none => st.get e k :=
+  Proofs.EvalStoreWF.get_call_scope_of_result hprog hrun data k
+
+/-- non-vacuity: a program text is closure-free, … -/
+example : ValWF 0 (L [S "let", L [S "x", I 1], L [S "fn", L [S "y"], S "x"]]) := by
+  simp [L, S, I, ValWF, ValsWF]
+
+/-- … `(let (x 1) (fn (y) x))` returns a closure whose defining scope is the `let` scope (id 1), … -/
+example : (match (run (L [S "let", L [S "x", I 1], L [S "fn", L [S "y"], S "x"]])).1 with
+    | .ok (.fn _ _ e _ _) => e == 1
+    | _ => false) = true := by
+  decide +kernel
+
+/-- … and a closure called from a scope that rebinds its free variable still sees the defining scope:
+    `(let (x 1) (let (f (fn () x)) (let (x 2) (f))))` ⇒ 1 (example above) -/
+example : StateWF initState ∧ 0 < initState.scopes.size := ⟨initState_StateWF, by decide⟩
+
+/-! ### END D1 -/
 
 end LispModel.Props.C01
